@@ -26,6 +26,7 @@ var namePool = []genName{
 	{2, []byte("co.uk")}, {2, []byte("com")}, {2, []byte("*.example.com")}, {2, []byte("*.com")}, {2, []byte("*.co.uk")}, {2, []byte("")}, {2, []byte(" space.com")},
 	{2, []byte("a..b.com")}, {2, []byte(".lead.com")}, {2, []byte(strings.Repeat("a", 64) + ".com")}, {2, []byte("EXAMPLE.Org")}, {2, []byte("localhost")},
 	{2, []byte("192.168.1.1")}, {2, []byte("foo.onion")}, {2, []byte("xn--caf-dma.com")}, {2, []byte("xn--bad!.com")}, {2, []byte("example.invalidtld")},
+	{2, []byte("1.168.192.in-addr.arpa")}, {2, []byte("a.b.c.d.in-addr.arpa")}, {2, []byte("x.ip6.arpa")}, {2, []byte("1.1.168.192.in-addr.arpa")},
 	{2, []byte("b*.example.com")}, {2, []byte("example.com\x00.evil")}, {2, []byte("caf\xc3\xa9.com")}, {2, []byte("1.0.0.10.in-addr.arpa")},
 	{1, []byte("user@example.com")}, {1, []byte("not an address")}, {1, []byte("")}, {1, []byte("caf\xc3\xa9@example.com")},
 	{6, []byte("http://example.com/path")}, {6, []byte("mailto:a@b.com")}, {6, []byte("urn:foo:bar")}, {6, []byte("//relative/path")}, {6, []byte("http://[::1]:80/")},
